@@ -1275,6 +1275,9 @@ pub fn check_repeated(bc: &BuildCase, obs: &mut Obs) -> Result<(), Fail> {
 
 pub fn replay(_e: &Engine, case: &Value, obs: &mut Obs) -> Result<(), Fail> {
     let bad = || Fail { sig: "bad_replay".into(), msg: "cannot parse case".into() };
+    if case.get("concurrent").is_some() {
+        return super::c19::replay(_e, case, obs);
+    }
     if case.get("kind").and_then(|k| k.as_str()) == Some("repeated_build") {
         let bc = BuildCase::from_json(case).ok_or_else(bad)?;
         for _ in 0..20 {
@@ -1510,7 +1513,7 @@ pub fn run(e: &'static Engine) {
          mixes V1-size and V25-V40 builds (plus SVG/text/PNG rendering), every result compared with the single-threaded reference \
          computed beforehand. Non-trivial: a history with >= 1 overwritten option and >= 2 builds, or a round with >= 2 threads.",
     );
-    e.extend_rule("setter histories with overwrite pairs and modes the input does not fit; Repeat ops (2..40, 254..257, 300, 1022..1025 builds in a row); FailingRender ops; the cold reference process runs under one of 12 generated environments; part cold_concurrent_rounds (the round as the first use of the crate in a fresh process).");
+    e.extend_rule("setter histories with overwrite pairs and modes the input does not fit; Repeat ops (2..40, 254..257, 300, 1022..1025 builds in a row); FailingRender ops; the cold reference process runs under one of 12 generated environments; part cold_concurrent_rounds (the round as the first use of the crate in a fresh process); part concurrent_file_exports (two threads released by a barrier write <stem>.svg and <stem>.png of one code into one directory, 40 rounds per case: each file holds exactly its own in-memory rendering).");
     e.assume("interleavings are sampled by stress, not controlled: the crate has no primitive through which a test could own the schedule");
     crate::engine::run_regress(e, &|c, o| replay(e, c, o));
     let total: u32 = e.tier.pick(640, 12800);
@@ -1592,6 +1595,24 @@ pub fn run(e: &'static Engine) {
             check_round(r, o)
         });
     })]);
+    // two file exports at the same time (the SVG and the PNG of one code into one directory): what each call writes
+    // depends only on its own QR code and options, never on the export running beside it (oracle shared with C19)
+    let conc_cases: u32 = e.tier.pick(3, 20);
+    let mut jobs: Vec<Job> = Vec::new();
+    for _ in 0..4 {
+        jobs.push(Box::new(move |jc: &mut JobCtx| {
+            let strat = (
+                (0usize..24).prop_flat_map(|ci| crate::gens::case_in_cell(crate::gens::Cell::from_index(ci), crate::gens::Force { mode: false, level: true, version: false }, None)),
+                prop_oneof![3 => Just(true), 1 => Just(false)],
+            );
+            jc.run_prop(7 << 20, &strat, conc_cases, |((b, _), same)| json!({"concurrent": {"build": b.to_json(), "same_stem": same, "rounds": 40}}), |((b, _), same), o| {
+                o.label("part:concurrent_file_exports");
+                super::c19::check_concurrent(b, *same, 40, o)
+            });
+        }));
+    }
+    e.par(jobs);
+    let _ = std::fs::remove_dir_all(super::c19::scratch_dir());
     cleanup_cold_dir();
     e.set_exhaustive(false, "call histories and thread schedules are sampled");
 }
